@@ -840,6 +840,7 @@ func RunCase(e *Env, c *Case, base string) (*Result, error) {
 		list := wn.List()
 		d.Recs = make([][2]ORec, len(lab.OutID))
 		seen := map[bc.Hash]bool{}
+		reported := map[bc.Hash]bool{} // usable records the cheap oracle has already refused
 		for _, r := range list {
 			ol, ok := lab.outs[r.ID]
 			if !ok {
@@ -861,6 +862,9 @@ func RunCase(e *Env, c *Case, base string) (*Result, error) {
 			// ---- C25: usable at the node's height => consensus accepts a spend at the next height
 			if r.Usable {
 				g.count("obs:usable")
+				if st != 2 {
+					reported[r.ID] = true
+				}
 				switch st {
 				case 0:
 					fail25("class=phantom-reported-mature: after delivery %d the keeper offers output %d (%s, valid height %d) at height %d; it is not an unspent output of the wallet's chain (best block %d)", di, ol, recKey(r), r.Valid, d.Height, wl)
@@ -898,7 +902,7 @@ func RunCase(e *Env, c *Case, base string) (*Result, error) {
 		last := di == len(g.order)-1
 		if (detachedNow && fresh < 3) || last {
 			fresh++
-			if err := g.freshOracle(wn, wpath, list, lab, di, d, fmt.Sprintf("%s/fresh%d", base, fresh), fail24, fail25); err != nil {
+			if err := g.freshOracle(wn, wpath, list, reported, lab, di, d, fmt.Sprintf("%s/fresh%d", base, fresh), fail24, fail25); err != nil {
 				return nil, err
 			}
 		}
@@ -909,7 +913,7 @@ func RunCase(e *Env, c *Case, base string) (*Result, error) {
 // freshOracle: the same accounts on a fresh node that is fed only the wallet's chain must list the
 // same utxos (C24); a block at the next height spending every utxo the history wallet calls usable
 // must be accepted by that fresh node (C25; only when the wallet is in step with its node).
-func (g *world) freshOracle(wn *WalletNode, wpath []int, list []Rec, lab *Labeler, di int, d Deliv, dir string,
+func (g *world) freshOracle(wn *WalletNode, wpath []int, list []Rec, reported map[bc.Hash]bool, lab *Labeler, di int, d Deliv, dir string,
 	fail24, fail25 func(string, ...interface{})) error {
 	fn, err := g.e.NewWalletNode(dir)
 	if err != nil {
@@ -969,8 +973,8 @@ func (g *world) freshOracle(wn *WalletNode, wpath []int, list []Rec, lab *Labele
 	var ids []string
 	st := g.blocks[wpath[len(wpath)-1]].st
 	for _, r := range list {
-		if !r.Usable {
-			continue
+		if !r.Usable || reported[r.ID] {
+			continue // not offered, or already refused by the utxo view (reported there)
 		}
 		i := st.find(r.ID)
 		if i < 0 {
